@@ -98,6 +98,8 @@ type Run struct {
 	violations map[string]bool
 	deadline   time.Time
 	harnessErr []string
+	shardOut   string // child process of a sharded run: results are dumped here instead of evidence/VIOLATION lines
+	childViol  []partialViol
 }
 
 func NewRun(t testing.TB, id, level string) *Run {
@@ -124,6 +126,7 @@ func NewRun(t testing.TB, id, level string) *Run {
 		}
 	}
 	r.deadline = r.start.Add(budget)
+	r.shardOut = os.Getenv("VERIF_SHARD_OUT")
 	return r
 }
 
@@ -198,6 +201,13 @@ func (r *Run) HarnessError(format string, a ...any) {
 func (r *Run) Violation(findingKey string, detail any) {
 	r.mu.Lock()
 	defer r.mu.Unlock()
+	if r.shardOut != "" { // child of a sharded run: the parent classifies (known finding or violation) and reports
+		if !r.violations[findingKey] && len(r.childViol) < 40 {
+			r.violations[findingKey] = true
+			r.childViol = append(r.childViol, partialViol{findingKey, detail})
+		}
+		return
+	}
 	if f, ok := r.known[findingKey]; ok {
 		if !r.knownHit[findingKey] {
 			r.knownHit[findingKey] = true
@@ -236,6 +246,10 @@ func (r *Run) Violations() int { r.mu.Lock(); defer r.mu.Unlock(); return len(r.
 func (r *Run) Finish(minOutcomes int) {
 	r.mu.Lock()
 	defer r.mu.Unlock()
+	if r.shardOut != "" {
+		r.dumpPartial(r.shardOut)
+		return
+	}
 	cov := map[string]any{}
 	for k, v := range r.Extra {
 		cov[k] = v
